@@ -175,6 +175,33 @@ def run(ctx):
                                   {"norb": norb, "nelec": ne, "projector_drift": float(drift)}))
         except Exception as ex:
             spec_fail.append((f"{kind}.optimize", "optimisation runs", {"norb": norb, "nelec": ne, "error": repr(ex)[:300]}))
+    # ---- differentiating through the optimisation when Fock levels coincide EXACTLY (two identical non-interacting
+    # fragments; repeated one-body levels): the derivative of the optimised density must be finite
+    for kind in ("rhf", "uhf"):
+        try:
+            lev = [-2.0, -2.0, 0.5, 0.5, 0.5, 3.0]
+            norb, ne = 6, ((2, 2) if kind == "rhf" else (2, 1))
+            h = np.diag(lev)
+            Lz = np.zeros((1, norb, norb))
+            ham = {"h0": 0.0, "h1": jnp.array([h, h]), "chol": jnp.array(Lz.reshape(1, -1))}
+            trial = wavefunctions.rhf(norb, ne) if kind == "rhf" else wavefunctions.uhf(norb, ne)
+            c0 = np.eye(norb)
+            wd = {"mo_coeff": jnp.array(c0[:, :ne[0]])} if kind == "rhf" else {"mo_coeff": [jnp.array(c0[:, :ne[0]]), jnp.array(c0[:, :ne[1]])]}
+            O = systems.sym(systems.dyadic(rng, (norb, norb), 3))
+
+            def dens(x):
+                hd = dict(ham)
+                hd["h1"] = ham["h1"] + x * jnp.array([O, O])
+                out = trial.optimize(hd, dict(wd))
+                c = out["mo_coeff"] if kind == "rhf" else out["mo_coeff"][0]
+                return c @ c.T
+            val, tan = jax.jvp(dens, (0.0,), (1.0,))
+            evals += 1
+            if not (np.isfinite(np.array(val)).all() and np.isfinite(np.array(tan)).all()):
+                spec_fail.append((f"{kind}.optimize", "the derivative taken through the optimisation stays finite (no NaN/inf) when eigenvalues coincide",
+                                  {"levels": lev, "nelec": ne, "nan_in_value": bool(not np.isfinite(np.array(val)).all()), "nan_in_derivative": bool(not np.isfinite(np.array(tan)).all())}))
+        except Exception as ex:
+            spec_fail.append((f"{kind}.optimize", "differentiation through the optimisation runs", {"error": repr(ex)[:300]}))
     # ---- a converged broken-symmetry solution handed over together with the density kept for the mean-field shift
     # (wave_data["rdm1"], here the spin-averaged one): the converged orbitals must still be a fixed point
     for nsite, ne, u in (((6, (3, 3), 4.0),) if ctx.tier == "quick" else ((6, (3, 3), 4.0), (4, (2, 2), 6.0), (6, (4, 3), 4.0))):
